@@ -362,6 +362,8 @@ class DSDLDefinition(ReadableDSDLFile):
                     self._text = str(f.read())
             except UnicodeDecodeError as ex:
                 raise InvalidDefinitionError("The file is not valid UTF-8 text: %s" % ex, self._file_path) from None
+            except OSError as ex:
+                raise InvalidDefinitionError("The file cannot be read: %s" % ex, self._file_path) from None
         return self._text
 
     @property
